@@ -685,3 +685,58 @@ def replay_altered_dump(obligation=None, model=None, meta=None):
     return {'confirmed': False, 'tried': 6}
 
 replay_altered_dump.real_system = True       # drives the real program on stock inputs: a crash inside repository code is a confirmed failure
+
+
+def replay_mpc_roundtrip(obligation=None, model=None, meta=None):
+    """native: System -> system2mpc -> mpc2system -> System on cases with off-nominal taps, once as shipped and once with the optional,
+    purely informational Line.trans flag left at its default 0: the branch data (r, x, b, tap, phi) and the power flow are reproduced"""
+    import contextlib
+    import io
+    import json
+    import logging
+    import os
+    import shutil
+    import tempfile
+    import numpy as np
+    import andes
+    from andes.io.matpower import system2mpc, mpc2system
+    logging.getLogger('andes').setLevel(logging.CRITICAL)
+    tmp = tempfile.mkdtemp(prefix='verif_mpc_')
+    n = 0
+    try:
+        for drop_trans in (False, True):
+            n += 1
+            with open(andes.get_case('ieee14/ieee14.json')) as f:
+                data = json.load(f)
+            keep = ('Bus', 'Line', 'PQ', 'PV', 'Slack', 'Shunt', 'Area')
+            data = {k: v for k, v in data.items() if k in keep}
+            if drop_trans:
+                for row in data['Line']:
+                    row.pop('trans', None)
+            path = os.path.join(tmp, 'static%d.json' % drop_trans)
+            with open(path, 'w') as f:
+                json.dump(data, f)
+            with contextlib.redirect_stdout(io.StringIO()), contextlib.redirect_stderr(io.StringIO()):
+                a = andes.load(path, default_config=True, no_output=True)
+                a.PFlow.run()
+                mpc = system2mpc(a)
+                b = andes.System(default_config=True, no_output=True)
+                mpc2system(mpc, b)
+                b.setup()
+                b.PFlow.run()
+            what = {'case': 'ieee14.json (static part)', 'Line.trans column': 'left out (default 0)' if drop_trans else 'as shipped'}
+            for par in ('r', 'x', 'b', 'tap', 'phi'):
+                x, y = np.asarray(a.Line.__dict__[par].v, dtype=float), np.asarray(b.Line.__dict__[par].v, dtype=float)
+                if x.shape != y.shape or not np.allclose(x, y, rtol=1e-9, atol=1e-12):
+                    k = int(np.argmax(np.abs(x - y))) if x.shape == y.shape else 0
+                    return {'confirmed': True, 'inputs': what, 'observed': 'Line.%s of branch #%d: %r before the export, %r after the re-import' % (par, k, float(x[k]), float(y[k])),
+                            'native_cmd': 'contracts/fn_io.py replay_mpc_roundtrip'}
+            dv = float(np.max(np.abs(np.asarray(a.Bus.v.v) - np.asarray(b.Bus.v.v))))
+            if dv > 1e-8:
+                return {'confirmed': True, 'inputs': what, 'observed': 'bus voltages of the re-imported case differ by %.3e' % dv, 'native_cmd': 'contracts/fn_io.py replay_mpc_roundtrip'}
+    finally:
+        shutil.rmtree(tmp, ignore_errors=True)
+    return {'confirmed': False, 'tried': n}
+
+
+replay_mpc_roundtrip.real_system = True
